@@ -24,10 +24,13 @@ def inst_piece(piece, rng, alphabet=None):
     i = 0
     while i < len(piece):
         c = piece[i]
+        if c.upper() not in gen.IUPAC:
+            i += 1
+            continue
         nxt = piece[i + 1:i + 2]
-        choices = gen.IUPAC[c] if alphabet is None or c != "N" else alphabet
-        if nxt == "*":
-            out.append(gen.rnd(rng.randint(0, 8), rng, choices))
+        choices = gen.IUPAC[c.upper()] if alphabet is None or c != "N" else alphabet
+        if nxt in ("*", "+"):
+            out.append(gen.rnd(rng.randint(1 if nxt == "+" else 0, 8), rng, choices))
             i += 3 if piece[i + 2:i + 3] == "?" else 2
         else:
             out.append(rng.choice(choices))
